@@ -188,7 +188,9 @@ def replay(prop, path):
     if code == 2:
         print(f"ANALYSIS-ERROR property={prop} reason={err}")
         return 2
-    key = (want["property"], want["rule"], want["construct"], want["statement"])
+    from .report import abstract_private
+
+    key = (want["property"], want["rule"], want["construct"], abstract_private(want["statement"]))
     for f in chk.findings:
         if f.key() == key:
             print(f"VIOLATION property={prop} replay={path}")
